@@ -700,9 +700,13 @@ class Unit:
         for (rule, pat, rep) in (extra or []):
             text = rw.sub(rule, pat, rep, text, flags=re.S)
         # R6: errno constants of the libc crate (Linux values)
-        errno = {"EPERM": 1, "ENOENT": 2, "EIO": 5, "EBADF": 9, "EAGAIN": 11, "ENOMEM": 12, "EACCES": 13, "EFAULT": 14, "EBUSY": 16, "EEXIST": 17,
+        errno = {"EPERM": 1, "ENOENT": 2, "EINTR": 4, "EWOULDBLOCK": 11, "EIO": 5, "EBADF": 9, "EAGAIN": 11, "ENOMEM": 12, "EACCES": 13, "EFAULT": 14, "EBUSY": 16, "EEXIST": 17,
                  "EINVAL": 22, "EPIPE": 32, "ENOSYS": 38, "EPROTO": 71, "ENOTSUP": 95, "ECONNRESET": 104, "ENOBUFS": 105}
-        text = rw.sub("R6", r'\blibc::(E[A-Z]+)\b', lambda m: "%di32" % errno.get(m.group(1), 5), text)
+        def _errno(m):
+            if m.group(1) not in errno:
+                raise ExtractError("unsupported construct: libc::%s has no entry in the errno table of rule R6" % m.group(1))
+            return "%di32" % errno[m.group(1)]
+        text = rw.sub("R6", r'\blibc::(E[A-Z]+)\b', _errno, text)
         return text
 
     def extracted_fn(self, src, fn, within=None, nth=0, contract="", sig_rw=None, body_rw=None, loops=None,
